@@ -25,4 +25,25 @@ def ctzAux (w : Nat) (x : Nat) : Nat → Nat → Nat
 
 def ctz (w x : Nat) : Nat := ctzAux w x w 0
 
+/-! ### IEEE-754 binary formats as bit patterns (`e` exponent bits, `m` fraction bits; `float` = 8/23, `double` = 11/52)
+
+The meaning of C's ordered comparisons on `float`/`double` (IEEE-754 5.11: every comparison with a NaN is false;
+`-0 = +0`; otherwise sign-magnitude order of the bit patterns, which covers subnormals and infinities). -/
+
+def fIsNaN (e m x : Nat) : Bool := decide ((x / 2^m) % 2^e = 2^e - 1 ∧ x % 2^m ≠ 0)
+def fSign (e m x : Nat) : Bool := decide (x / 2^(e+m) % 2 = 1)
+/-- order-embedding key of a non-NaN pattern: numeric order of the values = integer order of the keys -/
+def fKey (e m x : Nat) : Int := if fSign e m x then - ((x % 2^(e+m) : Nat) : Int) else ((x % 2^(e+m) : Nat) : Int)
+
+inductive FCmp where | lt | gt | le | ge
+deriving Repr, DecidableEq
+
+def fcmp (e m : Nat) (op : FCmp) (a b : Nat) : Bool :=
+  !fIsNaN e m a && !fIsNaN e m b &&
+    (match op with
+     | .lt => decide (fKey e m a < fKey e m b)
+     | .gt => decide (fKey e m a > fKey e m b)
+     | .le => decide (fKey e m a ≤ fKey e m b)
+     | .ge => decide (fKey e m a ≥ fKey e m b))
+
 end AwsVerif.CSem
